@@ -118,6 +118,13 @@ class CertStore:
                 c.num_tickets = 0   # no post-handshake records: the peer's byte log is application data only
                 c.load_cert_chain(self.certs[n].certfile, self.certs[n].keyfile)
                 self._ctx[n] = c
+                # the same certificate on a server that speaks TLS 1.2 at most ("<name>@12"): its Finished is the last handshake message,
+                # so application data can follow it in the same flight (a server that speaks first)
+                c12 = ssl.SSLContext(ssl.PROTOCOL_TLS_SERVER)
+                c12.minimum_version = ssl.TLSVersion.TLSv1_2
+                c12.maximum_version = ssl.TLSVersion.TLSv1_2
+                c12.load_cert_chain(self.certs[n].certfile, self.certs[n].keyfile)
+                self._ctx[n + "@12"] = c12
         finally:
             # the contexts hold the key material in memory; nothing is left on disk
             shutil.rmtree(d, ignore_errors=True)
@@ -189,10 +196,12 @@ class TLSPeer:
             s.settimeout(0.2)
 
     # -- scripting ---------------------------------------------------------------
-    def push(self, cert: str, steps: list) -> None:
-        """script for the next accepted connection (FIFO)"""
+    def push(self, cert: str, steps: list, with_finished: bytes | None = None) -> None:
+        """script for the next accepted connection (FIFO).  `with_finished`: the server speaks first - these application bytes are
+        put into the SAME TCP send as the last handshake flight (use a "<cert>@12" context: with TLS 1.2 that flight is the server's
+        Finished); afterwards it listens briefly, sends close_notify and closes (the steps are not used)"""
         with self.lock:
-            self.queue.append({"cert": cert, "steps": steps})
+            self.queue.append({"cert": cert, "steps": steps, "with_finished": with_finished})
 
     def clear(self) -> None:
         with self.lock:
@@ -244,7 +253,69 @@ class TLSPeer:
                 self.handlers.append(t)
             t.start()
 
+    def _handle_bio(self, raw: socket.socket, script: dict, entry: dict) -> None:
+        """a connection driven through memory BIOs so that the first application bytes leave together with the Finished"""
+        inb, outb = ssl.MemoryBIO(), ssl.MemoryBIO()
+        so = self.certs.ctx(script["cert"]).wrap_bio(inb, outb, server_side=True)
+        raw.settimeout(self.hs_timeout)
+        try:
+            while True:
+                try:
+                    so.do_handshake()
+                    break
+                except ssl.SSLWantReadError:
+                    out = outb.read()
+                    if out:
+                        raw.sendall(out)
+                    chunk = raw.recv(65536)
+                    if not chunk:
+                        entry["err"] = "handshake: eof"
+                        return
+                    inb.write(chunk)
+            entry["hs"] = True
+            so.write(script["with_finished"])
+            raw.sendall(outb.read())                      # last handshake flight + the response, one send
+            end = time.monotonic() + 0.4
+            buf = bytearray()
+            while time.monotonic() < end:
+                raw.settimeout(max(0.01, end - time.monotonic()))
+                try:
+                    chunk = raw.recv(65536)
+                except (socket.timeout, OSError):
+                    break
+                if not chunk:
+                    break
+                inb.write(chunk)
+                try:
+                    while True:
+                        d = so.read(65536)
+                        if not d:
+                            break
+                        buf.extend(d)
+                        entry["rx"] = bytes(buf)
+                except (ssl.SSLWantReadError, ssl.SSLError):
+                    pass
+            try:
+                so.unwrap()
+            except ssl.SSLError:
+                pass
+            out = outb.read()
+            if out:
+                try:
+                    raw.sendall(out)
+                except OSError:
+                    pass
+        except Exception as e:  # noqa: BLE001
+            entry["err"] = f"bio: {type(e).__name__}"
+        finally:
+            try:
+                raw.close()
+            except OSError:
+                pass
+
     def _handle(self, raw: socket.socket, script: dict, entry: dict) -> None:
+        if script.get("with_finished") is not None:
+            return self._handle_bio(raw, script, entry)
         conn = None
         try:
             raw.settimeout(self.hs_timeout)
